@@ -104,8 +104,9 @@ Section StepMacro.
     nonempty n = true -> In n xs -> ~ In n (map fst (decl_macs prev)) ->
     Forall (fun x => In x (map fst (decl_cplx prev))) xs ->
     (forall n' xs', In (n', xs') (decl_macs prev) -> mac_sig prev xs' <> mac_sig prev xs) ->
-    exists r' acc', read_one ct G None (TList line) acc r = (r', Ok acc') /\
-      SInv (prev ++ [SMac n xs]) r' acc' /\ Later r acc r' acc'.
+    exists r' i, (forall accR, read_one ct G None (TList line) accR r = (r', Ok (apply_delta (FKind KindM n i) accR))) /\
+      SInv (prev ++ [SMac n xs]) r' (apply_delta (FKind KindM n i) acc) /\
+      Later r acc r' (apply_delta (FKind KindM n i) acc).
   Proof.
     intros SI Hdec Hne Hin Hnew Hxs Hsig. pose proof SI as [C B].
     set (st := r_st r). set (i := length (heap st)). set (h := heap st).
@@ -185,6 +186,6 @@ Section StepMacro.
         exact (later_member_ckey _ _ _ _ _ _ L' A2).
       + cbn [r_st hold heap]. rewrite heap_mk_new. apply hget_new.
     - intros n0 names0 sst0 [].
-    - eauto.
+    - eexists. eexists. split; [exact E3 | split; [exact SI' | exact L']].
   Qed.
 End StepMacro.
